@@ -243,7 +243,7 @@ func build(cfg *CheckCfg) (*buildOut, error) {
 	}
 	seen := map[string]bool{}
 	var files []string
-	for _, g := range append(append(append(append([]string{}, cfg.Instrument...), cfg.NetShim...), cfg.MapRanges...), append(append([]string{}, cfg.Selects...), cfg.GoGates...)...) {
+	for _, g := range append(append(append(append([]string{}, cfg.Instrument...), cfg.NetShim...), cfg.MapRanges...), append(append(append([]string{}, cfg.Selects...), cfg.GoGates...), cfg.TimeShim...)...) {
 		for _, f := range glob(g) {
 			if !seen[f] {
 				seen[f] = true
